@@ -1255,3 +1255,202 @@ Proof.
   - unfold RdE.cie_body. change (RdE.sp_of _) with sp. fold cr.
     change (CfiSpec.c_fmt64 cr) with (c_fmt64 c). rewrite <- Hbody. exact Hbound.
 Qed.
+
+(* ---- the written FDE is CfiSpec.enc_fde of its translation ---- *)
+
+Definition addr_val (a : addr) : N := match a with AConst v => v | ASym _ _ => 0 end.
+
+(* offset of the address field of an FDE written at pos *)
+Definition fde_addr_pos (eh : bool) (pos : N) (c : CfiWr.cie) : N :=
+  pos + ilen_size (c_fmt64 c) + id_size_of eh (c_fmt64 c).
+
+Definition fde_init_raw (eh : bool) (pos : N) (c : CfiWr.cie) (f : CfiWr.fde) : N :=
+  if negb (c_fde_enc c =? 0) then ptr_raw (fde_addr_pos eh pos c) (c_fde_enc c) (addr_val (f_addr f))
+  else addr_val (f_addr f).
+
+Definition fde_afmt (c : CfiWr.cie) : N := if negb (c_fde_enc c =? 0) then CfiWr.pe_format (c_fde_enc c) else 0.
+
+(* offset of the LSDA field *)
+Definition fde_lsda_pos (be eh : bool) (pos : N) (c : CfiWr.cie) (f : CfiWr.fde) : N :=
+  fde_addr_pos eh pos c
+  + CfiRd.nlen (CfiSpec.enc_value (fde_afmt c) (c_asize c) be (fde_init_raw eh pos c f))
+  + CfiRd.nlen (CfiSpec.enc_value (fde_afmt c) (c_asize c) be (f_len f)) + 1.
+
+Definition fde_lsda_raw (be eh : bool) (pos : N) (c : CfiWr.cie) (f : CfiWr.fde) : N :=
+  match f_lsda f, c_lsda_enc c with
+  | Some a, Some e => ptr_raw (fde_lsda_pos be eh pos c f) e (addr_val a)
+  | _, _ => 0
+  end.
+
+Definition fde_rec_of (be eh : bool) (pos : N) (c : CfiWr.cie) (f : CfiWr.fde) (idx : nat) (instr : list byte)
+  : CfiSpec.fde_rec :=
+  CfiSpec.mkfde_rec (c_fmt64 c) idx (fde_init_raw eh pos c f) (f_len f) (fde_lsda_raw be eh pos c f) [] instr.
+
+Lemma find_R_items c d : CfiSpec.find_R (aug_items_of c d) = if negb (c_fde_enc c =? 0) then Some (c_fde_enc c) else None.
+Proof.
+  unfold aug_items_of, pers_items, lsda_items.
+  destruct (c_lsda_enc c); destruct (c_pers c) as [[e [a|s x]]|]; destruct (negb (c_fde_enc c =? 0)); destruct (c_sig c);
+    reflexivity.
+Qed.
+Lemma find_L_items c d : CfiSpec.find_L (aug_items_of c d) = c_lsda_enc c.
+Proof.
+  unfold aug_items_of, pers_items, lsda_items.
+  destruct (c_lsda_enc c); destruct (c_pers c) as [[e [a|s x]]|]; destruct (negb (c_fde_enc c =? 0)); destruct (c_sig c);
+    reflexivity.
+Qed.
+Lemma has_aug_items c d i : CfiSpec.has_aug (cie_rec_of c d i) = has_augmentation c.
+Proof.
+  unfold CfiSpec.has_aug, cie_rec_of. cbn [CfiSpec.c_z CfiSpec.c_items].
+  destruct (has_augmentation c) eqn:Ea; [reflexivity|].
+  destruct (no_aug_fields c Ea) as (E1 & E2 & E3 & E4).
+  unfold aug_items_of, pers_items, lsda_items. rewrite E1, E2, E3, E4. reflexivity.
+Qed.
+
+Lemma addr_const_of_write be a size bs : write_address be a size = Ok bs -> exists v, a = AConst v.
+Proof. destruct a; [eauto|discriminate]. Qed.
+Lemma addr_const_of_ptr be pos a e size bs : write_eh_pointer be pos a e size = Ok bs -> exists v, a = AConst v.
+Proof. destruct a; [eauto|discriminate]. Qed.
+
+Lemma fde_write_enc dbg be eh pos coff (c : CfiWr.cie) (f : CfiWr.fde) bs :
+  cie_wf c = true -> fde_wf f = true -> pos + len bs < 18446744073709551616 -> coff <= pos ->
+  fde_write dbg be eh pos coff c f = Ok bs ->
+  exists insns pad,
+    write_fde_insns dbg be (c_caf c) (c_daf c) 0 (f_insns f) = Ok insns /\ all_nop pad = true /\ len pad < c_asize c /\
+    (forall d ci idx,
+       bs = CfiSpec.enc_fde (cie_sp eh be c) (cie_rec_of c d ci) coff pos (fde_rec_of be eh pos c f idx (insns ++ pad))) /\
+    lsda_ok c f = true /\
+    (* what the reader needs to know about the encodings and values *)
+    (negb (c_fde_enc c =? 0) = true ->
+       (CfiWr.pe_application (c_fde_enc c) = 0 \/ CfiWr.pe_application (c_fde_enc c) = 16) /\
+       CfiSpec.fmt_valid (CfiWr.pe_format (c_fde_enc c)) = true /\
+       CfiSpec.value_fits (CfiWr.pe_format (c_fde_enc c)) (c_asize c) (fde_init_raw eh pos c f) = true /\
+       CfiSpec.value_fits (CfiWr.pe_format (c_fde_enc c)) (c_asize c) (f_len f) = true) /\
+    (negb (c_fde_enc c =? 0) = false ->
+       fde_init_raw eh pos c f < 2 ^ (8 * c_asize c) /\ f_len f < 2 ^ (8 * c_asize c)) /\
+    (forall e, c_lsda_enc c = Some e ->
+       (CfiWr.pe_application e = 0 \/ CfiWr.pe_application e = 16) /\
+       CfiSpec.fmt_valid (CfiWr.pe_format e) = true /\
+       CfiSpec.value_fits (CfiWr.pe_format e) (c_asize c) (fde_lsda_raw be eh pos c f) = true) /\
+    (exists v, f_addr f = AConst v) /\
+    (forall la, f_lsda f = Some la -> exists v, la = AConst v) /\
+    (if eh then pos + ilen_size (c_fmt64 c) - coff < 4294967296
+     else coff < (if c_fmt64 c then 18446744073709551616 else 4294967296)).
+Proof.
+  intros Hwf Hfwf Hfit Hcoff H.
+  pose proof (fde_write_ok_asz _ _ _ _ _ _ _ _ H) as Hasz.
+  destruct (asz_cases_pow2 _ Hasz) as [Hu8 Hp2].
+  pose proof Hwf as Hwf0. unfold cie_wf in Hwf. split_wf Hwf.
+  rename W into Hinsns, W0 into Hfe, W1 into Hle, W2 into Hpe, W3 into Hra, W4 into Hdaf, W5 into Hcaf, W6 into Hasz8.
+  destruct (fde_wf_parts2 f Hfwf) as (Hfa & Hfl & Hflsda).
+  apply is_u32_iff in Hfl.
+  unfold fde_write in H. cbv zeta in H.
+  set (base := pos + ilen_size (c_fmt64 c)) in *.
+  apply bind_ok_inv in H. destruct H as (ptr & Hptr & H).
+  apply bind_ok_inv in H. destruct H as (addrs & Haddrs & H).
+  destruct (Bool.eqb (is_some (f_lsda f)) (is_some (c_lsda_enc c))) eqn:Hls; cbn [negb] in H; [|discriminate].
+  apply bind_ok_inv in H. destruct H as (augdata & Haug & H).
+  apply bind_ok_inv in H. destruct H as (insns & Hins & H).
+  apply (close_entry_spec dbg be _ _ _ _ Hu8 Hp2) in H.
+  destruct H as (il & pad & Hbs & Hil & Hlen & Hnop & Hpad & Hmod).
+  exists insns, pad. split; [exact Hins|]. split; [exact Hnop|]. split; [exact Hpad|].
+  assert (HL : len ((ptr ++ addrs ++ augdata ++ insns) ++ pad) < 18446744073709551616).
+  { rewrite Hbs in Hfit. rewrite len_app in Hfit. lia. }
+  destruct (initial_length_eq _ _ _ _ HL Hil) as [Eil Hbound].
+  assert (Hbase : base < 18446744073709551616 /\ coff < 18446744073709551616).
+  { rewrite Hbs in Hfit. rewrite len_app, Hlen in Hfit. unfold base. lia. }
+  destruct Hbase as [Hbase Hcoff64].
+  (* CIE pointer *)
+  assert (Eptr : ptr = CfiSpec.cie_pointer (cie_sp eh be c) (c_fmt64 c) base coff /\
+                 len ptr = id_size_of eh (c_fmt64 c) /\
+                 (if eh then base - coff < 4294967296
+                  else coff < (if c_fmt64 c then 18446744073709551616 else 4294967296))).
+  { unfold CfiSpec.cie_pointer, cie_sp, id_size_of. cbn [CfiSpec.s_eh CfiSpec.s_be]. destruct eh.
+    - apply bind_ok_inv in Hptr. destruct Hptr as (d & Hd & Hptr).
+      rewrite chk_sub_le in Hd by (unfold base; lia). injection Hd as <-.
+      destruct (write_udata_un_bytes be (base - coff) 4 ptr ltac:(lia) Hptr) as (_ & -> & Hlt).
+      split; [reflexivity|]. split; [unfold len; rewrite CfiRdBase.un_bytes_length; reflexivity|].
+      change (2 ^ (8 * 4)) with 4294967296 in Hlt. exact Hlt.
+    - destruct (write_udata_un_bytes be coff (word_size (c_fmt64 c)) ptr ltac:(lia) Hptr) as (_ & -> & Hlt).
+      destruct (c_fmt64 c); cbn [word_size] in *;
+        (split; [reflexivity|]; split; [unfold len; rewrite CfiRdBase.un_bytes_length; reflexivity|]).
+      + change (2 ^ (8 * 8)) with 18446744073709551616 in Hlt. exact Hlt.
+      + change (2 ^ (8 * 4)) with 4294967296 in Hlt. exact Hlt. }
+  destruct Eptr as (Eptr & Lptr & Hco).
+  assert (Hapos : base + len ptr = fde_addr_pos eh pos c) by (unfold fde_addr_pos, base; lia).
+  rewrite Hapos in *.
+  (* addresses *)
+  assert (Eaddr : addrs = CfiSpec.enc_value (fde_afmt c) (c_asize c) be (fde_init_raw eh pos c f)
+                          ++ CfiSpec.enc_value (fde_afmt c) (c_asize c) be (f_len f) /\
+          (negb (c_fde_enc c =? 0) = true ->
+             (CfiWr.pe_application (c_fde_enc c) = 0 \/ CfiWr.pe_application (c_fde_enc c) = 16) /\
+             CfiSpec.fmt_valid (CfiWr.pe_format (c_fde_enc c)) = true /\
+             CfiSpec.value_fits (CfiWr.pe_format (c_fde_enc c)) (c_asize c) (fde_init_raw eh pos c f) = true /\
+             CfiSpec.value_fits (CfiWr.pe_format (c_fde_enc c)) (c_asize c) (f_len f) = true) /\
+          (negb (c_fde_enc c =? 0) = false ->
+             fde_init_raw eh pos c f < 2 ^ (8 * c_asize c) /\ f_len f < 2 ^ (8 * c_asize c)) /\
+          (exists v, f_addr f = AConst v)).
+  { unfold fde_afmt, fde_init_raw. destruct (negb (c_fde_enc c =? 0)) eqn:Ef.
+    - apply bind_ok_inv in Haddrs. destruct Haddrs as (ab & Hab & Haddrs).
+      apply bind_ok_inv in Haddrs. destruct Haddrs as (lb & Hlb & Haddrs). injection Haddrs as <-.
+      destruct (addr_const_of_ptr _ _ _ _ _ _ Hab) as (v & Ev). rewrite Ev in *. cbn [addr_val addr_wf] in *.
+      destruct (write_eh_pointer_enc be _ v _ _ ab ltac:(lia) Hab) as (-> & Happ & Hfv & Hfit1 & _).
+      destruct (write_eh_pointer_data_enc be (f_len f) _ _ lb ltac:(lia) Hlb) as (-> & _ & Hfit2 & _).
+      split; [reflexivity|]. split; [intros _; auto|]. split; [discriminate|eauto].
+    - apply bind_ok_inv in Haddrs. destruct Haddrs as (ab & Hab & Haddrs).
+      apply bind_ok_inv in Haddrs. destruct Haddrs as (lb & Hlb & Haddrs). injection Haddrs as <-.
+      destruct (addr_const_of_write _ _ _ _ Hab) as (v & Ev). rewrite Ev in *. cbn [addr_val addr_wf write_address] in *.
+      destruct (write_udata_un_bytes be v _ ab ltac:(lia) Hab) as (_ & -> & Hlt1).
+      destruct (write_udata_un_bytes be (f_len f) _ lb ltac:(lia) Hlb) as (_ & -> & Hlt2).
+      split; [reflexivity|]. split; [discriminate|]. split; [auto|eauto]. }
+  destruct Eaddr as (Eaddr & Hfenc & Hnofenc & Hconst).
+  assert (Hlpos : fde_addr_pos eh pos c + len addrs + 1 = fde_lsda_pos be eh pos c f).
+  { unfold fde_lsda_pos. rewrite Eaddr, len_app. unfold len, CfiRd.nlen. lia. }
+  rewrite Hlpos in Haug.
+  (* augmentation data *)
+  apply (proj1 (bool_eqb_iff _ _)) in Hls.
+  assert (Eaug : augdata = (if has_augmentation c
+                            then enc_uleb (CfiSpec.blen (match c_lsda_enc c with
+                                                         | Some e => CfiSpec.enc_value (CfiSpec.fmt_of e) (c_asize c) be (fde_lsda_raw be eh pos c f)
+                                                         | None => [] end ++ []))
+                                 ++ (match c_lsda_enc c with
+                                     | Some e => CfiSpec.enc_value (CfiSpec.fmt_of e) (c_asize c) be (fde_lsda_raw be eh pos c f)
+                                     | None => [] end ++ [])
+                            else []) /\
+          (forall e, c_lsda_enc c = Some e ->
+             (CfiWr.pe_application e = 0 \/ CfiWr.pe_application e = 16) /\
+             CfiSpec.fmt_valid (CfiWr.pe_format e) = true /\
+             CfiSpec.value_fits (CfiWr.pe_format e) (c_asize c) (fde_lsda_raw be eh pos c f) = true) /\
+          (forall la, f_lsda f = Some la -> exists v, la = AConst v)).
+  { unfold fde_lsda_raw. destruct (has_augmentation c) eqn:Ea.
+    - apply bind_ok_inv in Haug. destruct Haug as (d & Hd & Haug).
+      apply with_aug_len_inv in Haug. destruct Haug as [Hdl ->].
+      destruct (f_lsda f) as [la|] eqn:Efl; destruct (c_lsda_enc c) as [le|] eqn:Ecl; cbn [is_some] in Hls; try discriminate.
+      + destruct (addr_const_of_ptr _ _ _ _ _ _ Hd) as (v & ->). cbn [addr_val addr_wf] in *.
+        pose proof (write_eh_pointer_len _ _ _ _ _ _ Hd) as Hd10.
+        destruct (write_eh_pointer_enc be _ v le _ d ltac:(lia) Hd) as (-> & Happ & Hfv & Hfit1 & _).
+        rewrite app_nil_r, fmt_of_pe. rewrite enc_uleb_small by (unfold CfiSpec.blen; lia).
+        split; [reflexivity|]. split; [intros e He; injection He as <-; auto|].
+        intros la Hla. injection Hla as <-. eauto.
+      + injection Hd as <-. cbn [app]. split; [reflexivity|]. split; [intros e He; discriminate|intros la Hla; discriminate].
+    - injection Haug as <-. destruct (no_aug_fields c Ea) as (E1 & _). rewrite E1 in *.
+      split; [reflexivity|]. split; [intros e He; discriminate|].
+      intros la Hla. rewrite Hla in Hls. discriminate. }
+  destruct Eaug as (Eaug & Hlenc & Hlconst).
+  split.
+  { intros d ci idx. rewrite Hbs, Eil. unfold CfiSpec.enc_fde. cbv zeta.
+    unfold fde_rec_of at 1 2. cbn [CfiSpec.f_fmt64]. unfold cie_sp at 1 3. cbn [CfiSpec.s_be].
+    assert (Hbody : (ptr ++ addrs ++ augdata ++ insns) ++ pad =
+                    CfiSpec.cie_pointer (cie_sp eh be c) (c_fmt64 c) (pos + CfiSpec.len_field_size (c_fmt64 c)) coff ++
+                    CfiSpec.fde_tail (cie_sp eh be c) (cie_rec_of c d ci) (fde_rec_of be eh pos c f idx (insns ++ pad))).
+    { unfold CfiSpec.fde_tail. cbv zeta. rewrite cie_asz_sp, has_aug_items. cbn [cie_rec_of CfiSpec.c_items].
+      rewrite find_R_items, find_L_items.
+      unfold fde_rec_of. cbn [CfiSpec.f_init CfiSpec.f_range CfiSpec.f_lsda CfiSpec.f_pad CfiSpec.f_instr].
+      unfold cie_sp at 2 3. cbn [CfiSpec.s_be].
+      change (CfiSpec.len_field_size (c_fmt64 c)) with (ilen_size (c_fmt64 c)). fold base.
+      rewrite Eptr, Eaddr, Eaug. unfold fde_afmt.
+      destruct (negb (c_fde_enc c =? 0)); rewrite ?fmt_of_pe; repeat rewrite <- app_assoc; reflexivity. }
+    rewrite Hbody. unfold len, CfiSpec.blen. reflexivity. }
+  split; [unfold lsda_ok; apply (proj2 (bool_eqb_iff _ _)); exact Hls|].
+  split; [exact Hfenc|]. split; [exact Hnofenc|]. split; [exact Hlenc|]. split; [exact Hconst|]. split; [exact Hlconst|].
+  exact Hco.
+Qed.
